@@ -181,11 +181,46 @@ func c10RichCompare(cs c10Case) string {
 	return ""
 }
 
+
+// c10VariantObs: the verdicts under each single atom as allowed list plus the sorted extracted set; "" = unusable.
+func c10VariantObs(atoms []string, expr string) string {
+	var b strings.Builder
+	for _, a := range atoms {
+		r := Sat(expr, []string{a})
+		if r.Panic != "" || r.IsErr {
+			return ""
+		}
+		if r.Ok {
+			b.WriteByte('1')
+		} else {
+			b.WriteByte('0')
+		}
+	}
+	e := Ext(expr)
+	if e.Panic != "" || e.IsErr {
+		return ""
+	}
+	b.WriteString(" extracts {" + strings.Join(sortedKeys(setOf(e.List)), ", ") + "}")
+	return b.String()
+}
+
+func c10VariantCompare(cs c10Case) string {
+	v := idVariants(cs.Set)
+	o1, o2 := c10VariantObs(v, cs.E1), c10VariantObs(v, cs.E2)
+	if o1 == "" || o2 == "" || o1 == o2 {
+		return ""
+	}
+	return fmt.Sprintf("rewrite %s: %q gives [verdicts under each of %q] %s, but %q gives %s", cs.Rule, cs.E1, v, o1, cs.E2, o2)
+}
+
 func init() {
 	kinds["c10.case"] = func(raw json.RawMessage) string {
 		var cs c10Case
 		if err := json.Unmarshal(raw, &cs); err != nil {
 			return "bad case"
+		}
+		if cs.Kind == "variant-edge" {
+			return c10VariantCompare(cs)
 		}
 		if cs.Kind == "compose-rich" {
 			c10CurAtoms = c10RichAtoms
@@ -202,7 +237,7 @@ func init() {
 		Explorer: "explicit-state search over the bounded rewrite graph of expression trees (states observed on the real code, every edge checked) + compositionality sweep",
 		Rule: "states = every expression tree with <= N leaves over atoms {MIT, ISC, LicenseRef-a} (all shapes, AND/OR labellings, leaf labellings); observation of a state = Satisfies under each of the 7 non-empty atom subsets + ExtractLicenses set, taken from the real code on the fully parenthesised rendering; " +
 			"transitions = one application at any subterm of commutativity, associativity, idempotence, absorption, distribution (either operator over the other) whose result stays within N leaves, plus 3 rendering changes per state (minimal parentheses, redundant outer parentheses, extra spaces); " +
-			"invariant on every edge: verdict vector equal, and extracted set equal except for absorption; compositionality: Satisfies((E) op (F)) = Satisfies(E) op Satisfies(F) for all E, F <= 3 leaves, all subsets; non-trivial = edges between textually different expressions whose verdict vector is neither all-false nor all-true",
+			"invariant on every edge: verdict vector equal, and extracted set equal except for absorption; the same two invariants for operand order / root regrouping of every tree <= 3 leaves over the ways of writing one license (x, x+, x-only, x-or-later, x WITH e, x+ WITH e, x WITH f; 4 licenses); compositionality: Satisfies((E) op (F)) = Satisfies(E) op Satisfies(F) for all E, F <= 3 leaves, all subsets; non-trivial = edges between textually different expressions whose verdict vector is neither all-false nor all-true",
 		Assumptions: []string{"purely differential: no reference evaluator; the rewrite engine (c10.go) must apply only sound Boolean-algebra rules"},
 		Run:         c10Run,
 		Post:        c10Post,
@@ -450,6 +485,65 @@ func c10Run(c *Ctx) {
 			}
 		}
 	}
+
+	// rewrites that keep the set of terms, over the different ways of writing ONE license: operand order
+	// everywhere, and regrouping at the root, must change neither the verdicts nor the extracted set
+	var vs []map[string]any
+	for _, x := range variantIDs {
+		v := idVariants(x)
+		vs = append(vs, map[string]any{"license": x, "terms": v})
+		vt := TreesUpTo(3, len(v))
+		for n := 2; n <= 3; n++ {
+			for _, t := range vt[n] {
+				pi++
+				if !c.Mine(pi) {
+					continue
+				}
+				if c.Expired() {
+					return
+				}
+				e1 := t.RenderMin(v)
+				if !c.Begin("variants " + e1) {
+					continue
+				}
+				o1 := c10VariantObs(v, e1)
+				c.Inc("states")
+				c.Add("transitions", int64(len(v))+1)
+				c.Inc("evaluations")
+				if o1 == "" {
+					c.Inc("skipped_panic")
+					continue
+				}
+				alts := []struct {
+					rule string
+					t    *Tree
+				}{{"commutativity (every operator)", t.Mirror()}}
+				for _, r := range t.Rotations() {
+					alts = append(alts, struct {
+						rule string
+						t    *Tree
+					}{"associativity (root)", r})
+				}
+				for _, a := range alts {
+					e2 := a.t.RenderMin(v)
+					if e2 == e1 {
+						continue
+					}
+					o2 := c10VariantObs(v, e2)
+					c.Add("transitions", int64(len(v))+1)
+					c.Inc("variant_edges")
+					c.Add("traces", int64(len(v))+1)
+					c.Inc("nontrivial")
+					c.Outcome("variant-edge:" + a.rule)
+					if o2 != "" && o2 != o1 {
+						cs := c10Case{Kind: "variant-edge", Rule: a.rule, E1: e1, E2: e2, Set: x}
+						c.Report(Violation{Kind: "c10.case", Class: "variant-edge:" + a.rule, Key: "variants:" + e1 + " => " + e2, Msg: c10VariantCompare(cs), Size: len(e1), Case: mustJSON(cs)})
+					}
+				}
+			}
+		}
+	}
+	c.Bound("variant_rewrites", map[string]any{"sets": vs, "max_leaves": 3, "rewrites": "operand order at every operator; regrouping at the root", "observation": "Satisfies under each single variant + the set ExtractLicenses returns"})
 }
 
 // ---------------------------------------------------------------- supervisor side: walk every edge
